@@ -250,6 +250,13 @@ def run(ctx):
                    what='a column may be named twice in the column list of INSERT / COPY: `insert into t(a, a, b) values (7,8,9)` stores a=7, '
                         'b=9 and silently drops the 8')
 
+    from rules.c20 import import_rescale_rule
+    import_rescale_rule(ctx, prog, 'C16-R10')
+    # INSERT brings every value to its declared type through the Cast node: the evaluator must run the cast kernel (after seed C16-e)
+    from rules.c14_types import evaluator_passes_nothing_through
+    evaluator_passes_nothing_through(ctx, prog, 'C16-R11')
+    lossless_insert_casts(ctx, prog)
+
     R3 = 'C16-R3'
     ctx.rule(R3, 'RowsetBuilder::new chooses the (nullable / non-nullable) block format from ColumnCatalog::is_nullable')
     rb = prog.group('storage::secondary::rowset::rowset_builder::RowsetBuilder::new')
@@ -301,3 +308,34 @@ def run(ctx):
 def __pl(x):
     from mir import operand_places
     return operand_places(x)
+
+
+def lossless_insert_casts(ctx, prog):
+    """C16-R12: INSERT converts losslessly or fails"""
+    from rules.c14 import cast_family
+    R12 = 'C16-R12'
+    ctx.rule(R12, 'C16 asks that INSERT "either converts a value losslessly to [the declared] type or fails". INSERT converts with ArrayImpl::cast '
+                  '(R2), so where that cast turns a fractional value (DECIMAL, DOUBLE) into an integer with `to_i16 / to_i32 / to_i64` - which '
+                  'truncate - the same closure has to look at the fraction first (fract / is_integer / round / trunc compared with the value)')
+    fam = cast_family(prog)
+    if not ctx.anchor(R12, 'cast family of ArrayImpl', bool(fam)):
+        return
+    per_src = {}
+    for g in fam:
+        for c in g.calls:
+            if re.search(r'ToPrimitive::to_i(16|32|64)$', c.fn or ''):
+                src = ' '.join(c.t.get('gargs', []))
+                kind = 'Decimal' if 'Decimal' in src else ('Float64' if 'f64' in src else None)
+                if kind is None:
+                    continue
+                checked = any(re.search(r'::(fract|is_integer|round|round_dp|trunc|floor|ceil)$', k.fn or '') for k in g.calls)
+                per_src.setdefault(kind, []).append((g, c, checked))
+    ctx.floor(R12, sum(len(v) for v in per_src.values()), 4, 'fractional -> integer conversions in the cast family')
+    for kind, lst in sorted(per_src.items()):
+        ok = all(ch for _, _, ch in lst)
+        ctx.functions_analysed.update(g.name for g, _, _ in lst)
+        ctx.ob(R12, f'cast·{kind}→integer·fraction-looked-at', ok,
+               f'{kind} -> integer: {len(lst)} conversion closures, {sum(1 for _, _, ch in lst if ch)} look at the fraction',
+               [site(g, c.bb) for g, c, _ in lst][:3],
+               what=f'a {kind} value with a fraction is stored into an integer column by truncation, without an error: `insert into t(a int) values '
+                    '(2.7)` stores 2')
